@@ -287,6 +287,11 @@ def gen_timing_args(repo, irregular):
     src = ast.unparse(fn)
     if "_SAMPLE_INTERVAL_STRATEGY_TYPE_FOR_MODE.get(sample_interval_mode)" not in src or "if strategy_type is None" not in src:
         raise T.Untranslatable("create_sample_interval_strategy: expected a dict.get lookup with a None check", fn, m3.path)
+    m4 = T.Module(f"{repo}/src/nitypes/waveform/_timing/_timing.py", "Gen.TimingArgs")
+    m4.translate_member_accessors("Timing", {"_timestamp": "timestamp", "_time_offset": "offset", "_sample_interval": "interval"},
+                                  ["has_timestamp", "has_start_time", "has_time_offset", "has_sample_interval"],
+                                  ["timestamp", "time_offset", "sample_interval"])
+    m.out += m4.out
     m.out.append("/-- generated from `_SAMPLE_INTERVAL_STRATEGY_TYPE_FOR_MODE` (a `dict.get` lookup; a miss raises ValueError) -/")
     m.out.append("@[pygen] def strategy_for_mode : List (String × String) := [" + ", ".join(f'("{k}", "{v}")' for k, v in table) + "]")
     m.out.append("")
